@@ -46,34 +46,35 @@ def result_variant_defs(body, local=0):
 # FA — failure atomicity
 
 PURE_EXTERNAL = [
-    # plumbing that hands references on without writing through them
-    r"^core::option::Option::<T>::(expect|unwrap|ok_or|ok_or_else|as_mut|as_deref_mut|unwrap_unchecked|is_some|is_none|take_if)$",
-    r"^core::result::Result::<T, E>::(expect|unwrap|ok|as_mut|is_ok|is_err)$",
-    r"^<.* as std::ops::Try>::branch$",
-    r"^<.* as std::ops::FromResidual<.*>>::from_residual$",
-    r"^core::slice::<impl \[T\]>::(iter_mut|get_mut|get_unchecked_mut|split_at_mut|split_at_mut_unchecked|split_at_mut_checked|first_mut|last_mut|as_mut_ptr|len|is_empty|iter|get|chunks_exact_mut|split_first_mut|split_last_mut)$",
-    r"^<.* as std::iter::IntoIterator>::into_iter$",
-    r"^<.* as std::iter::Iterator>::(next|enumerate|zip|rev|skip|take|by_ref)$",
-    r"^<.* as std::ops::DerefMut>::deref_mut$",
-    r"^<.* as std::ops::Deref>::deref$",
-    r"^<.* as std::convert::AsMut<.*>>::as_mut$",
-    r"^<.* as std::ops::IndexMut<.*>>::index_mut$",
-    r"^<.* as std::ops::Index<.*>>::index$",
-    r"^core::slice::index::<impl std::ops::IndexMut<I> for \[T\]>::index_mut$",
-    r"^std::vec::Vec::<T, A>::(as_mut_slice|iter_mut|as_mut_ptr|len|get_mut|first_mut|last_mut)$",
-    r"^tinyvec::ArrayVec::<A>::(iter_mut|as_mut_slice|len|get_mut)$",
-    r"^tinyvec::.*::(iter_mut|as_mut_slice|len|deref_mut)$",
+    # plumbing that hands references on without writing through them (canonical core/alloc/std paths, suffix regexes)
+    r"(^|::)option::Option::<T>::(expect|unwrap|ok_or|ok_or_else|as_mut|as_deref_mut|as_deref|unwrap_unchecked|is_some|is_none)$",
+    r"(^|::)result::Result::<T, E>::(expect|unwrap|ok|as_mut|is_ok|is_err|unwrap_unchecked)$",
+    r"ops::try_trait::Try(>)?::branch$",
+    r"ops::try_trait::FromResidual(<.*>)?(>)?::from_residual$",
+    r"^core::slice::<impl \[T\]>::(iter_mut|get_mut|get_unchecked_mut|split_at_mut|split_at_mut_unchecked|split_at_mut_checked|first_mut|last_mut|as_mut_ptr|len|is_empty|iter|get|chunks_exact_mut|split_first_mut|split_last_mut|get_disjoint_unchecked_mut)$",
+    r"iter::traits::collect::IntoIterator(>)?::into_iter$",
+    r"iter::traits::iterator::Iterator(>)?::(next|enumerate|zip|rev|skip|take|by_ref)$",
+    r"ops::deref::DerefMut(>)?::deref_mut$",
+    r"ops::deref::Deref(>)?::deref$",
+    r"convert::AsMut(<.*>)?(>)?::as_mut$",
+    r"ops::index::IndexMut(<.*>)?(>)?::index_mut$",
+    r"ops::index::Index(<.*>)?(>)?::index$",
+    r"<impl core::ops::index::IndexMut<I> for \[T(; N)?\]>::index_mut$",
+    r"<impl core::ops::index::Index<I> for \[T(; N)?\]>::index$",
+    r"^alloc::vec::Vec::<T, A>::(as_mut_slice|iter_mut|as_mut_ptr|len|get_mut|first_mut|last_mut)$",
+    r"^tinyvec::.*::(iter_mut|as_mut_slice|len|deref_mut|get_mut)$",
     r"^core::ptr::mut_ptr::<impl \*mut T>::(add|cast|offset|sub)$",
-    r"^core::slice::from_raw_parts_mut$",
-    r"^std::boxed::Box::<.*>::(as_mut|as_mut_ptr)$",
+    r"^core::slice::raw::from_raw_parts_mut$",
+    r"^alloc::boxed::Box::<.*>::(as_mut|as_mut_ptr)$",
     r"^core::mem::size_of(_val)?$",
-    r"^<.* as std::borrow::BorrowMut<.*>>::borrow_mut$",
+    r"borrow::BorrowMut(<.*>)?(>)?::borrow_mut$",
+    r"^core::pin::Pin::<.*>::(as_mut|get_mut|new_unchecked)$",
 ]
 _PURE_RE = [re.compile(p) for p in PURE_EXTERNAL]
 
 
 def external_pure(name):
-    return any(r.match(name) for r in _PURE_RE)
+    return any(r.search(name) for r in _PURE_RE)
 
 
 class FA:
@@ -224,11 +225,11 @@ class FA:
         for d in body.defs.get(0, ()):
             if d[0] == "assign" and not d[3]:
                 rv = d[4]
-                if rv[0] == "agg" and rv[1][0] == "adt" and rv[1][1] == "std::result::Result" and rv[1][2] == "Err":
+                if rv[0] == "agg" and rv[1][0] == "adt" and rv[1][1] == "core::result::Result" and rv[1][2] == "Err":
                     out.append((d[1], d[2], "Err(..)"))
                 elif rv[0] == "use":
                     o = body.origin(rv[1])
-                    if "adt:std::result::Result::Err" in tokens(o):
+                    if "adt:core::result::Result::Err" in tokens(o):
                         out.append((d[1], d[2], "Err via move"))
             elif d[0] == "call":
                 c = d[4]
